@@ -1,5 +1,6 @@
 From Coq Require Extraction.
 From Coq Require Import ExtrOcamlBasic.
-From NV Require Import Base.Witness Io.Source Io.ReadExact Io.BufReader Io.FastaScan Io.Run.
+From NV Require Import Base.Witness Io.Source Io.ReadExact Io.BufReader Io.FastaScan Io.FastaIndex Io.Run.
 Extraction "model.ml" nv_types_witness run_rx run_rxb bam_read_records bgzf_read read_until_all
-  gff_lines seq_pieces run_read_sequence fidx_first_line src_left b_left.
+  gff_lines seq_pieces run_read_sequence fidx_first_line src_left b_left
+  run_index_file.
